@@ -404,6 +404,17 @@ pub fn run(ctx: &mut Ctx) {
     seeds.extend(DIAG_SEEDS.iter().map(|s| s.to_string()));
     seeds.extend(seeds::canonical_sources());
     seeds.extend(crate::mon::c03_targeted_small());
+    // front matter in every position the splitter accepts or refuses: after blank lines, CRLF, closing fence at the end
+    for fm in [
+        "\n---\ntitle: Crème brûlée\n---\n\nMix @crème{200%ml} and @sucre.\n",
+        "  \n\n---\ntitle: x\nservings: 4\n---\n>> k: v\n= s\n> p\n@a{1%kg}(n) #b ~{1%min}\n",
+        "---\r\ntitle: x\r\nservings: 4\r\nauthor: grandma\r\n---\r\nMix @a{1}\r\nwith b\r\n\r\n~t{1%min}(n)\r\n",
+        "---\ntitle: x\n---",
+        "---\n---\nstep @a{1/0}",
+        "step\n---\ntitle: x\n---\n@a{}",
+    ] {
+        seeds.push(fm.to_string());
+    }
     ctx.notes.insert("sweep_seeds".into(), seeds.len().into());
     let cfgs: [(u32, &str); 3] = [
         (Extensions::empty().bits(), "empty"),
@@ -411,6 +422,15 @@ pub fn run(ctx: &mut Ctx) {
         (Extensions::COMPAT.bits(), "empty"),
     ];
     let mut k = 0u64;
+    for doc in crate::mon::c05::fence_family() {
+        for (e, c) in cfgs {
+            if ctx.mine(k) {
+                check_case(ctx, &mut ps, &Case::new("fence", doc.as_str(), e, c));
+                ctx.count("inputs_fence_family");
+            }
+            k += 1;
+        }
+    }
     for seed in &seeds {
         let mut variants = vec![seed.clone()];
         multibyte_sweep(seed, |s| variants.push(s));
